@@ -81,6 +81,7 @@ type Ledger struct {
 	meta           *pb.LedgerMeta  //账本关键的元数据{genesis, tip, height}
 	GenesisBlock   *GenesisBlock   //创始块
 	pendingTable   kvdb.Database   //保存临时的block区块
+	metaMu         sync.RWMutex    // guards the meta pointer for GetMeta (see there)
 	heightTable    kvdb.Database   //保存高度到Blockid的映射
 	blockCache     *cache.LRUCache // block cache, 加速QueryBlock
 	blkHeaderCache *cache.LRUCache // block header cache, 加速fetchBlock
@@ -194,6 +195,10 @@ func (l *Ledger) Close() {
 
 // GetMeta returns meta info of Ledger, such as genesis block ID, current block height, tip block ID
 func (l *Ledger) GetMeta() *pb.LedgerMeta {
+	// ConfirmBlock / Truncate replace the pointer (under l.mutex) while transaction admission and
+	// the engine ask for the meta without that lock
+	l.metaMu.RLock()
+	defer l.metaMu.RUnlock()
 	return l.meta
 }
 
@@ -764,7 +769,9 @@ func (l *Ledger) ConfirmBlock(block *pb.InternalBlock, isRoot bool) ConfirmStatu
 		l.xlog.Warn("batch write failed when confirm block", "kvErr", kvErr)
 	} else {
 		confirmStatus.Succ = true
+		l.metaMu.Lock()
 		l.meta = newMeta
+		l.metaMu.Unlock()
 	}
 	block.Transactions = realTransactions
 	if isRoot {
@@ -1191,7 +1198,9 @@ func (l *Ledger) Truncate(utxovmLastID []byte) error {
 		l.xlog.Warn("batch write failed when truncate", "err", err)
 		return err
 	}
+	l.metaMu.Lock()
 	l.meta = newMeta
+	l.metaMu.Unlock()
 
 	l.xlog.Info("truncate blockid succeed")
 	return nil
